@@ -10,8 +10,10 @@ import (
 	"math/rand"
 	"sort"
 	"strings"
+	"sync/atomic"
 	"time"
 
+	"google.golang.org/protobuf/types/known/fieldmaskpb"
 	"google.golang.org/protobuf/types/known/timestamppb"
 
 	"github.com/smart-core-os/sc-api/go/traits"
@@ -28,6 +30,34 @@ type bookingCase struct {
 	Query   string   `json:"query"`
 	NBefore int      `json:"n_before"`
 	Ops     []string `json:"ops"` // `set:<id>:<period>` create-or-update booking <id> with that booked period
+	// UpdatesOnly: the request's updates_only flag - no seed; the subscriber takes ListBookings with the same
+	// request as its base line and applies the stream to it.
+	UpdatesOnly bool `json:"updates_only,omitempty"`
+	// Mask: the request's read_mask: "" (none), "id" (the booked period is stripped from every listed and
+	// delivered booking; the period filter must still judge the stored one) or "id,booked".
+	Mask string `json:"mask,omitempty"`
+}
+
+func (c bookingCase) readMask() *fieldmaskpb.FieldMask {
+	if c.Mask == "" {
+		return nil
+	}
+	return &fieldmaskpb.FieldMask{Paths: strings.Split(c.Mask, ",")}
+}
+
+// masked: how a booking with that booked period reads through the request's read mask
+func (c bookingCase) masked(per string) string {
+	if c.Mask == "id" {
+		return "nil"
+	}
+	if per == "absent" {
+		return "nil"
+	}
+	return per
+}
+
+func (c bookingCase) request(query *sctime.Period) *traits.ListBookingsRequest {
+	return &traits.ListBookingsRequest{BookingIntersects: query, ReadMask: c.readMask(), UpdatesOnly: c.UpdatesOnly}
 }
 
 // parseP: "nil"/"absent" = no period at all; "-/-" = the unbounded period `{}`.
@@ -67,13 +97,38 @@ func showP(p *sctime.Period) string {
 // listed: independent oracle for "the booking is in the filtered collection": no request period =
 // every booking; otherwise the booking needs a booked period sharing an instant with the request's.
 func listed(booked, query string) bool {
-	if query == "absent" {
-		return true
-	}
-	if booked == "nil" {
+	in, _ := listedSpec(booked, query)
+	return in
+}
+
+// degenerate: both bounds present and start >= end - a period that holds no instant (`[4,4)`, `[6,3)`).
+func degenerate(p string) bool {
+	q := strings.Split(p, "/")
+	if len(q) != 2 || q[0] == "-" || q[1] == "-" {
 		return false
 	}
-	return intersects(booked, query)
+	var a, b int64
+	fmt.Sscan(q[0], &a)
+	fmt.Sscan(q[1], &b)
+	return a >= b
+}
+
+// listedSpec: the oracle with its domain.  "Sharing an instant" says what the filter means for proper
+// periods; for a degenerate booked or request period the property does not say whether the booking
+// belongs to the filtered collection (pkg/time's answer is C18's subject and reaches this check through
+// the tie with C18's model) - only that ListBookings and the folded PullBookings stream must agree on
+// it: specified = false.
+func listedSpec(booked, query string) (in, specified bool) {
+	if query == "absent" {
+		return true, true
+	}
+	if booked == "nil" {
+		return false, true
+	}
+	if degenerate(booked) || degenerate(query) {
+		return false, false
+	}
+	return intersects(booked, query), true
 }
 
 // intersects: two half-open intervals with optional bounds share an instant.
@@ -128,7 +183,36 @@ type bookingObs struct {
 	Executed []string
 	Seed     string
 	Lists    []string
+	// Events: per drain after the subscription (the seed drain: its fence event only), the delivered changes
+	Events [][]string
+	// NBefore: the writes executed before the subscriber was registered (for an updates-only subscription
+	// this includes the probe writes it was not handed)
+	NBefore  int
 	Complete bool
+}
+
+func (c bookingCase) key() string {
+	k := c.Query + "/" + strings.Join(c.Ops, " ")
+	if c.UpdatesOnly {
+		k = "uo/" + k
+	}
+	if c.Mask != "" {
+		k = "m=" + c.Mask + "/" + k
+	}
+	return k
+}
+
+func showMap(v map[string]string) string {
+	var ids []string
+	for id := range v {
+		ids = append(ids, id)
+	}
+	sort.Strings(ids)
+	parts := []string{}
+	for _, id := range ids {
+		parts = append(parts, id+"="+v[id])
+	}
+	return strings.Join(parts, ",")
 }
 
 func (c bookingCase) runObs(m sink) (o bookingObs) {
@@ -159,6 +243,7 @@ func (c bookingCase) runObs(m sink) (o bookingObs) {
 			return
 		}
 	}
+	o.NBefore = c.NBefore
 	query := parseP(c.Query)
 	// The wrapper runs the PullBookings handler in its own goroutine: the subscription exists only some
 	// time after the call returns.  A write racing with it is the business of C03/C04 (Update publishes
@@ -167,18 +252,22 @@ func (c bookingCase) runObs(m sink) (o bookingObs) {
 	// is about ONE subscriber's filtered stream under the writes that follow its subscription.  So wait
 	// until the handler is inside Collection.onUpdate: from that yield point until the listener is
 	// registered it holds the collection's read lock, hence every later write commits - and publishes -
-	// after the registration.
+	// after the registration.  (An updates-only subscription registers WITHOUT the lock: see below.)
 	subscribing := make(chan struct{}, 1)
+	var turns atomic.Int64 // deliveries Bus.Send has started: one per registered listener and published event
 	verifhook.Set(func(point string) {
-		if point == "coll.onUpdate.beforeListen" {
+		switch point {
+		case "coll.onUpdate.beforeListen":
 			select {
 			case subscribing <- struct{}{}:
 			default:
 			}
+		case "bus.send.beforeListener":
+			turns.Add(1)
 		}
 	})
 	defer verifhook.Set(nil)
-	stream, err := client.PullBookings(ctx, &traits.ListBookingsRequest{BookingIntersects: query})
+	stream, err := client.PullBookings(ctx, c.request(query))
 	if err != nil {
 		m.Violate("C08/booking/pull-error", "PullBookings failed", c, "stream", err.Error())
 		return
@@ -209,21 +298,21 @@ func (c bookingCase) runObs(m sink) (o bookingObs) {
 	}()
 	view := map[string]string{}
 	fenceN := 0
-	// drain to a fence: a fresh booking whose period equals the query, hence always included.
-	// Subscription happens inside the server goroutine: the first fence is retried until it is seen
-	// either as a seed or as an ADD.
-	drain := func() (evs []string, ok bool) {
+	// A fence is a fresh booking the request always lists: its period equals the request's; without a
+	// request period any will do; for a degenerate request period (which equals nothing, itself included)
+	// the unbounded one.
+	writeFence := func() (fid string, err error) {
 		fenceN++
-		fid := fmt.Sprintf("~%d", fenceN)
+		fid = fmt.Sprintf("~%d", fenceN)
 		fper := c.Query
 		if fper == "absent" {
 			fper = "0/1" // without a request period every booking is listed
-		} else if !intersects(fper, fper) { // an empty query period intersects nothing: no fence possible
-			return nil, false
+		} else if degenerate(fper) {
+			fper = "-/-"
 		}
-		if err := set("set:" + fid + ":" + fper); err != nil {
-			return nil, false
-		}
+		return fid, set("set:" + fid + ":" + fper)
+	}
+	await := func(fid string) (evs []string, ok bool) {
 		timer := time.NewTimer(fenceTimeout)
 		defer timer.Stop()
 		for {
@@ -242,23 +331,67 @@ func (c bookingCase) runObs(m sink) (o bookingObs) {
 			}
 		}
 	}
-	filtered := func() string {
+	drain := func() (evs []string, ok bool) {
+		fid, err := writeFence()
+		if err != nil {
+			return []string{"fence write failed: " + err.Error()}, false
+		}
+		return await(fid)
+	}
+	// the oracle: the filtered collection by the shadow map.  `?` marks a booking the oracle does not
+	// place (degenerate period): ListBookings and the fold must agree on it, whichever way.
+	wantStr := func() string {
 		var ids []string
-		for id, p := range shadowP {
-			if listed(p, c.Query) {
-				ids = append(ids, id)
-			}
+		for id := range shadowP {
+			ids = append(ids, id)
 		}
 		sort.Strings(ids)
 		parts := []string{}
 		for _, id := range ids {
-			parts = append(parts, id+"="+shadowP[id])
+			in, spec := listedSpec(shadowP[id], c.Query)
+			switch {
+			case !spec:
+				parts = append(parts, id+"=?"+c.masked(shadowP[id]))
+			case in:
+				parts = append(parts, id+"="+c.masked(shadowP[id]))
+			}
 		}
 		return strings.Join(parts, ",")
 	}
+	agrees := func(got map[string]string) bool {
+		for id, p := range shadowP {
+			in, spec := listedSpec(p, c.Query)
+			v, ok := got[id]
+			if ok && v != c.masked(p) {
+				return false
+			}
+			if spec && in != ok {
+				return false
+			}
+		}
+		for id := range got {
+			if _, ok := shadowP[id]; !ok {
+				return false
+			}
+		}
+		return true
+	}
+	listNow := func() (byID map[string]string, text string, err error) {
+		lst, err := client.ListBookings(ctx, c.request(query))
+		if err != nil {
+			return nil, "", err
+		}
+		byID = map[string]string{}
+		parts := []string{}
+		for _, b := range lst.Bookings {
+			byID[b.Id] = showP(b.Booked)
+			parts = append(parts, b.Id+"="+showP(b.Booked))
+		}
+		return byID, strings.Join(parts, ","), nil
+	}
 	foldAndCheck := func(evs []string, step string) bool {
 		trace = append(trace, fmt.Sprintf("after %s: events %s", step, showChanges(evs)))
-		defer func() { trace = append(trace, fmt.Sprintf("after %s: view %v want %s", step, view, filtered())) }()
+		defer func() { trace = append(trace, fmt.Sprintf("after %s: view %v want %s", step, view, wantStr())) }()
 		for _, ev := range evs {
 			f := splitComma(ev)
 			if len(f) != 7 {
@@ -285,47 +418,80 @@ func (c bookingCase) runObs(m sink) (o bookingObs) {
 				view[id] = new
 			}
 		}
-		var ids []string
-		for id := range view {
-			ids = append(ids, id)
-		}
-		sort.Strings(ids)
-		parts := []string{}
-		for _, id := range ids {
-			parts = append(parts, id+"="+view[id])
-		}
-		got, want := strings.Join(parts, ","), filtered()
-		if got != want {
+		got, want := showMap(view), wantStr()
+		if !agrees(view) {
 			m.Violate("C08/booking/PullBookings/fold-differs-from-filtered-collection", "folding PullBookings(booking_intersects) does not give the intersecting bookings", c, want+" after "+step, got)
 			return false
 		}
-		lst, err := client.ListBookings(ctx, &traits.ListBookingsRequest{BookingIntersects: query})
+		byID, l, err := listNow()
 		if err != nil {
 			m.Violate("C08/booking/list-error", "ListBookings failed", c, "ok", err.Error())
 			return false
 		}
-		parts = parts[:0]
-		for _, b := range lst.Bookings {
-			parts = append(parts, b.Id+"="+showP(b.Booked))
-		}
-		trace = append(trace, fmt.Sprintf("after %s: ListBookings %s", step, strings.Join(parts, ",")))
-		if len(parts) == 0 {
+		trace = append(trace, fmt.Sprintf("after %s: ListBookings %s", step, l))
+		if l == "" {
 			o.Lists = append(o.Lists, "-")
 		} else {
-			o.Lists = append(o.Lists, strings.Join(parts, ","))
+			o.Lists = append(o.Lists, l)
 		}
-		if l := strings.Join(parts, ","); l != want {
+		if !agrees(byID) {
 			m.Violate("C08/booking/ListBookings/not-filtered-collection", "ListBookings(booking_intersects) is not the intersecting bookings", c, want+" after "+step, l)
+			return false
+		}
+		// the property itself, oracle or not: the folded stream is ListBookings with the same request
+		// (same bookings, same values, in id order)
+		if got != l {
+			m.Violate("C08/booking/PullBookings/fold-differs-from-ListBookings", "folding PullBookings does not give what ListBookings with the same request returns", c, l+" after "+step, got)
 			return false
 		}
 		return true
 	}
-	evs, ok := drain()
-	if !ok {
-		if evs == nil {
-			m.Eval("empty-query", false, nil)
-			return
+	var evs []string
+	ok := false
+	if c.UpdatesOnly {
+		// No seed, and Collection.onUpdate registers the listener without holding the collection's lock:
+		// the moment of subscription is found by probing.  Before every probe the client takes its base
+		// line (ListBookings, same request); the probe is a fence write; Bus.Send announces every delivery
+		// it starts (yield point bus.send.beforeListener, the subscriber being the only listener): the
+		// first probe that is handed to the listener is the first event of the stream, the base line taken
+		// before it is the subscriber's view.
+		deadline := time.Now().Add(fenceTimeout)
+		for !ok {
+			base, l, err := listNow()
+			if err != nil {
+				m.Violate("C08/booking/list-error", "ListBookings failed", c, "ok", err.Error())
+				return
+			}
+			if !agrees(base) {
+				m.Violate("C08/booking/ListBookings/not-filtered-collection", "ListBookings(booking_intersects) is not the intersecting bookings", c, wantStr()+" before subscribing", l)
+				return
+			}
+			t0, nb := turns.Load(), len(o.Executed)
+			fid, err := writeFence()
+			if err != nil {
+				m.Violate("C08/booking/write-error", "booking write failed", c, "ok", err.Error())
+				return
+			}
+			if turns.Load() > t0 {
+				o.NBefore = nb
+				view = base
+				trace = append(trace, fmt.Sprintf("updates-only subscriber registered before probe %s; base line (ListBookings) %s", fid, l))
+				evs, ok = await(fid)
+				if !ok {
+					break
+				}
+				continue
+			}
+			if time.Now().After(deadline) {
+				evs = []string{"no probe write was handed to a listener"}
+				break
+			}
+			time.Sleep(200 * time.Microsecond)
 		}
+	} else {
+		evs, ok = drain()
+	}
+	if !ok {
 		trace = append(trace, "seed fence lost: "+showChanges(evs))
 		m.Violate("C08/booking/PullBookings/fence-lost", "a newly created intersecting booking was not delivered within 5s", c, "ADD", showChanges(evs))
 		return
@@ -343,6 +509,7 @@ func (c bookingCase) runObs(m sink) (o bookingObs) {
 		if len(items) > 0 {
 			o.Seed = strings.Join(items, ",")
 		}
+		o.Events = append(o.Events, evs[len(evs)-1:])
 	}
 	if !foldAndCheck(evs, "seed") {
 		return
@@ -358,30 +525,37 @@ func (c bookingCase) runObs(m sink) (o bookingObs) {
 			m.Violate("C08/booking/PullBookings/fence-lost", "a newly created intersecting booking was not delivered within 5s", c, "ADD", showChanges(evs))
 			return
 		}
+		o.Events = append(o.Events, evs)
 		if !foldAndCheck(evs, op) {
 			return
 		}
 	}
-	m.Eval(c.Query+"/"+strings.Join(c.Ops, " "), true, nil)
+	m.Eval(c.key(), true, nil)
 	o.Complete = true
 	return
 }
 
 // tieRecord compares what the run observed with the Lean model of the same writes under the booking
-// server's include option (`bpull`): the seed and ListBookings after every fence.
+// server's options (`bpullx`): the seed, and for every fence the changes delivered since the previous
+// one (as a set: the order of two events of different bookings is the merge machine's) and ListBookings.
 func (c bookingCase) tieRecord(tie *lib.Tie, drv *lib.Driver, o bookingObs) {
 	if !o.Complete || drv == nil {
 		return
 	}
-	line := strings.Join(append([]string{"bpull", c.Query, fmt.Sprint(c.NBefore)}, o.Executed...), " ")
+	mask := "none"
+	if c.Mask == "id" {
+		mask = "id"
+	}
+	line := strings.Join(append([]string{"bpullx", c.Query, flag(c.UpdatesOnly), mask, fmt.Sprint(o.NBefore)}, o.Executed...), " ")
 	ans, err := drv.Ask(line)
 	if err != nil {
 		tie.Fail(err)
 		return
 	}
 	toks := strings.Split(ans, " ")
+	after := o.Executed[o.NBefore:]
 	modelParts := []string{}
-	if len(toks) == len(o.Executed)-c.NBefore+1 && strings.HasPrefix(toks[0], "seed=") {
+	if len(toks) == len(after)+1 && strings.HasPrefix(toks[0], "seed=") {
 		var items []string
 		if sv := strings.TrimPrefix(toks[0], "seed="); sv != "-" {
 			for _, ev := range strings.Split(sv, ";") {
@@ -396,24 +570,51 @@ func (c bookingCase) tieRecord(tie *lib.Tie, drv *lib.Driver, o bookingObs) {
 			seed = strings.Join(items, ",")
 		}
 		modelParts = append(modelParts, "seed="+seed)
-		for i, op := range o.Executed[c.NBefore:] {
+		var grp []string
+		for i, op := range after {
+			t := toks[1+i]
+			at := strings.LastIndex(t, "@")
+			if at < 0 {
+				modelParts = append(modelParts, "?"+t)
+				continue
+			}
+			if ev := t[:at]; ev != "drop" && ev != "fail" {
+				grp = append(grp, strings.Split(ev, ";")...)
+			}
 			if strings.HasPrefix(op, "ups:~") {
-				t := toks[1+i]
-				modelParts = append(modelParts, t[strings.LastIndex(t, "@")+1:])
+				sort.Strings(grp)
+				modelParts = append(modelParts, strings.Join(grp, ";")+"@"+t[at+1:])
+				grp = nil
 			}
 		}
 	} else {
 		modelParts = append(modelParts, ans)
 	}
-	code := append([]string{"seed=" + o.Seed}, o.Lists...)
-	tie.Record(c.Query+"/"+strings.Join(c.Ops, " "), c.Query != "absent", c, strings.Join(modelParts, " "), strings.Join(code, " "))
+	code := []string{"seed=" + o.Seed}
+	for i, l := range o.Lists {
+		var grp []string
+		if i < len(o.Events) {
+			grp = append(grp, o.Events[i]...)
+		}
+		sort.Strings(grp)
+		code = append(code, strings.Join(grp, ";")+"@"+l)
+	}
+	tie.Record(c.key(), c.Query != "absent", c, strings.Join(modelParts, " "), strings.Join(code, " "))
 	tie.Count("query " + queryShape(c.Query))
+	if c.UpdatesOnly {
+		tie.Count("updates-only")
+	}
+	if c.Mask != "" {
+		tie.Count("read mask " + c.Mask)
+	}
 }
 
 func queryShape(q string) string {
 	switch {
 	case q == "absent":
 		return "absent"
+	case degenerate(q):
+		return "degenerate"
 	case q == "-/-":
 		return "unbounded"
 	case strings.HasPrefix(q, "-/"):
@@ -439,8 +640,8 @@ func (c bookingCase) runConfirmed(res *lib.Result, m sink, tie *lib.Tie, drv *li
 	c.tieRecord(tie, drv, first)
 }
 
-// genPeriod draws a period shape: no period at all (only when allowNil), unbounded `{}`, start-only,
-// end-only, or both bounds, over seconds 0..8.
+// genPeriod draws a period shape: no period at all (`none`), unbounded `{}`, start-only, end-only, both
+// bounds, or - one in eight - a degenerate one (start == end, or end before start), over seconds 0..8.
 func genPeriod(r *rand.Rand, none string) string {
 	s, e := r.Intn(8), r.Intn(8)
 	if s > e {
@@ -449,7 +650,7 @@ func genPeriod(r *rand.Rand, none string) string {
 	if s == e {
 		e++
 	}
-	switch r.Intn(8) {
+	switch r.Intn(9) {
 	case 0:
 		return none // "nil" for a booking without booked period, "absent" for a request without booking_intersects
 	case 1:
@@ -458,6 +659,11 @@ func genPeriod(r *rand.Rand, none string) string {
 		return fmt.Sprintf("%d/-", s)
 	case 3:
 		return fmt.Sprintf("-/%d", e)
+	case 4:
+		if r.Intn(3) == 0 {
+			return fmt.Sprintf("%d/%d", e, s) // end before start
+		}
+		return fmt.Sprintf("%d/%d", s, s) // a zero-length marker
 	}
 	return fmt.Sprintf("%d/%d", s, e)
 }
@@ -466,32 +672,65 @@ func genPeriod(r *rand.Rand, none string) string {
 var queryShapes = []string{"absent", "-/-", "3/-", "-/6", "3/6"}
 var bookingShapes = []string{"nil", "4/-", "-/4", "4/5", "6/8", "1/3", "5/8", "7/9", "-/-", "nil", "2/7"}
 
+// ... and through degenerate ones: zero-length inside / on the borders of / outside the request period,
+// end before start, alternating with proper periods so that every one is reached from a listed and from
+// an unlisted booking
+var degenerateShapes = []string{"4/4", "4/5", "5/5", "7/9", "3/3", "6/6", "2/7", "5/4", "8/8", "4/4", "nil", "7/2", "3/6", "1/1"}
+var degenerateQueries = []string{"4/4", "6/3"}
+
+func walk(c bookingCase, shapes []string) bookingCase {
+	for k, b := range shapes {
+		c.Ops = append(c.Ops, "set:a:"+b)
+		if k%4 == 1 {
+			c.Ops = append(c.Ops, "set:b:"+shapes[(k+5)%len(shapes)])
+		}
+	}
+	return c
+}
+
 func runBooking(f lib.Flags, res *lib.Result, drv *lib.Driver) {
 	tie := res.Tie("booking-server", "K1",
-		"the same cases through the Lean model of the booking server's include option (bookingInclude: no request period = no filter; else PeriodsIntersect(booked, request), false for a missing booked period) composed with the collection model: the seed PullBookings delivers and ListBookings(booking_intersects=q) after every write are compared with the model's `bpull` answer; non-trivial = request period present; distinct = (query, history)")
-	mon := res.Monitor("booking-period-predicate", "real bookingpb.ModelServer through its wrapper client: every request shape (booking_intersects absent, {}, start-only, end-only, both) x a booking walked through every booking shape (no booked period, start-only, end-only, inside, touching, overlapping, disjoint, unbounded), plus random create/update histories of 2-3 bookings with such periods over seconds 0..8, PullBookings/ListBookings(booking_intersects=q): after each write (fenced by creating a fresh intersecting booking) fold(stream) = ListBookings = bookings intersecting q by an integer-interval oracle; every event well formed at the view; distinct = (query, history)")
+		"the same cases through the Lean model of the booking server's options (bookingInclude: no request period = no filter; else PeriodsIntersect(booked, request) by C18's model of pkg/time - degenerate periods included -, false for a missing booked period; read mask = projection applied after include; updates_only = no seed) composed with the collection model (`bpullx`): the seed PullBookings delivers, and for every fence the set of changes delivered since the previous one and ListBookings with the same request, are compared with the model's answer; non-trivial = request period present; distinct = (request, history)")
+	mon := res.Monitor("booking-period-predicate", "real bookingpb.ModelServer through its wrapper client: every request shape (booking_intersects absent, {}, start-only, end-only, both, degenerate) x a booking walked through every booking shape (no booked period, start-only, end-only, inside, touching, overlapping, disjoint, unbounded; zero-length inside/on the border/outside, end before start), with and without updates_only (base line = ListBookings taken before the first event; the moment of registration found by probe writes and the bus's yield point) and with a read mask that strips the booked period, plus random create/update histories of 2-3 bookings with such periods over seconds 0..8: after each write (fenced by creating a fresh listed booking) every event is well formed at the subscriber's view, fold(stream) = ListBookings with the same request (same bookings, values, order), and both = the bookings sharing an instant with the request period by an integer-interval oracle (for proper periods; a degenerate period holds no instant and the oracle leaves the booking open); distinct = (request, history)")
 	_ = resource.WithInclude
 	r := lib.NewRand(f.Seed + 7)
 	n := f.N(400, 4000)
 	ids := []string{"a", "b", "c"}
+	sys := 0
+	run := func(c bookingCase) {
+		c.Kind = "booking"
+		c.runConfirmed(res, mon, tie, drv)
+		mon.Count("query " + queryShape(c.Query))
+		sys++
+	}
 	for _, q := range queryShapes {
 		for nb := 0; nb < 2; nb++ {
-			c := bookingCase{Kind: "booking", Query: q, NBefore: nb * 3}
-			for k, b := range bookingShapes {
-				c.Ops = append(c.Ops, "set:a:"+b)
-				if k%4 == 1 {
-					c.Ops = append(c.Ops, "set:b:"+bookingShapes[(k+5)%len(bookingShapes)])
-				}
-			}
-			c.runConfirmed(res, mon, tie, drv)
-			mon.Count("query " + q)
+			run(walk(bookingCase{Query: q, NBefore: nb * 3}, bookingShapes))
 		}
+		run(walk(bookingCase{Query: q, NBefore: 3, UpdatesOnly: true}, bookingShapes))
+		run(walk(bookingCase{Query: q, NBefore: 0, Mask: "id"}, bookingShapes))
+		run(walk(bookingCase{Query: q, NBefore: 3, UpdatesOnly: true, Mask: "id"}, bookingShapes))
+		run(walk(bookingCase{Query: q, NBefore: 2}, degenerateShapes))
+		run(walk(bookingCase{Query: q, NBefore: 2, UpdatesOnly: true, Mask: "id,booked"}, degenerateShapes))
 	}
+	for _, q := range degenerateQueries {
+		run(walk(bookingCase{Query: q, NBefore: 3}, bookingShapes))
+		run(walk(bookingCase{Query: q, NBefore: 1, UpdatesOnly: true}, degenerateShapes))
+	}
+	mon.Count(fmt.Sprintf("systematic cases %d", sys))
 	for i := 0; i < n; i++ {
 		c := bookingCase{Kind: "booking", Query: genPeriod(r, "absent"), NBefore: r.Intn(3)}
 		k := c.NBefore + 1 + r.Intn(5)
 		for j := 0; j < k; j++ {
 			c.Ops = append(c.Ops, "set:"+ids[r.Intn(len(ids))]+":"+genPeriod(r, "nil"))
+		}
+		switch r.Intn(6) {
+		case 0, 1:
+			c.UpdatesOnly = true
+		case 2:
+			c.Mask = "id"
+		case 3:
+			c.UpdatesOnly, c.Mask = true, "id"
 		}
 		c.runConfirmed(res, mon, tie, drv)
 	}
